@@ -21,8 +21,8 @@ Prog = collections.namedtuple('Prog', 'outer calls context route taint')
 CONTEXTS = ('return', 'assign', 'if', 'ifelse', 'tryfinally', 'tryexcept', 'with', 'listcomp',
             'nested', 'lambda', 'decoy_before', 'decoy_after',
             'arg_of_call', 'nested_arg_of_call', 'lambda_arg_of_call', 'nested2', 'result_attr', 'ifelse_unres',
-            'nested_ifelse_arg', 'decoy_shadow_nonlocal', 'shadow_nested', 'shadow_async', 'shadow_comp')
-NESTED_CONTEXTS = ('nested', 'lambda', 'nested_arg_of_call', 'lambda_arg_of_call', 'nested2', 'nested_ifelse_arg')
+            'nested_ifelse_arg', 'decoy_shadow_nonlocal', 'shadow_nested', 'shadow_async', 'shadow_comp', 'forloop', 'nested_lambda')
+NESTED_CONTEXTS = ('nested', 'lambda', 'nested_arg_of_call', 'lambda_arg_of_call', 'nested2', 'nested_ifelse_arg', 'nested_lambda')
 TWO_BRANCH_CONTEXTS = ('ifelse', 'ifelse_unres', 'nested_ifelse_arg')
 # the call is written with the wrapper's star names, but in a scope where those names are bound to something else (the
 # parameters of a nested function, the targets of a comprehension): nothing of the wrapper's is forwarded
@@ -30,7 +30,7 @@ SHADOW_CONTEXTS = ('shadow_nested', 'shadow_async', 'shadow_comp')
 ROUTES = ('global', 'closure', 'attr1', 'attr2', 'method', 'param', 'partial', 'wrapsdeco')
 TAINTS_ANY = ('rebind', 'augassign', 'delrebind', 'fortarget', 'withas', 'walrus', 'starunpack', 'nonlocal',
               'importas', 'fromimportas', 'defname', 'classname', 'matchcapture', 'matchstar')
-TAINTS_VK = ('methodcall', 'itemstore', 'handover', 'handoverkw')
+TAINTS_VK = ('methodcall', 'itemstore', 'handover', 'handoverkw', 'nested_methodcall', 'nested_itemstore')
 
 
 def star(outer, kind):
@@ -118,6 +118,11 @@ def taint_stmts(prog):
         return ["%s.pop('q', None)" % name]
     if kind == 'itemstore':
         return ["%s['q_'] = 1" % name, "del %s['q_']" % name]
+    if kind == 'nested_methodcall':
+        # the mutation happens in a helper that runs where the statement stands
+        return ['def taint_():', "    %s.pop('q', None)" % name, 'taint_()']
+    if kind == 'nested_itemstore':
+        return ['def taint_():', "    %s['q_'] = 1" % name, "    del %s['q_']" % name, 'taint_()']
     if kind == 'count':
         return ['%s.count(0)' % name]
     if kind == 'handover':
@@ -169,12 +174,19 @@ def body_lines(prog, uid):
         return ['def h_():', '    return IDENT(' + e0 + ')'] + before + ['r = h_()'] + after + ['return r']
     elif ctx == 'lambda_arg_of_call':
         return ['h_ = lambda: IDENT(' + e0 + ')'] + before + ['r = h_()'] + after + ['return r']
+    elif ctx == 'nested_lambda':
+        # two levels, the intermediate scope binds no name at all
+        return ['def h_():', '    return (lambda: ' + e0 + ')()'] + before + ['r = h_()'] + after + ['return r']
     elif ctx == 'nested2':
         return ['def h_():', '    def g_():', '        return ' + e0, '    return g_()'] + before + ['r = h_()'] + after + ['return r']
     elif ctx == 'arg_of_call':
         core = ['r = IDENT(' + e0 + ')']
     elif ctx == 'result_attr':
         core = ['r = ' + e0 + '.real']
+    elif ctx == 'forloop':
+        # the body runs twice: a taint placed after the call ('loopafter') precedes the call of the second round
+        inloop = taint_stmts(prog) if prog.taint and prog.taint[2] == 'loopafter' else []
+        core = ['for i_ in (0, 1):', '    r = ' + e0] + ['    ' + ln for ln in inloop]
     elif ctx == 'decoy_before':
         core = ['DECOY(1, x=2)', 'r = ' + e0]
     elif ctx == 'decoy_after':
@@ -298,7 +310,7 @@ def pristine(prog, j, which):
     use = cs.va if which == 'va' else cs.vk
     if use != 'own' or prog.context in SHADOW_CONTEXTS:
         return False
-    if prog.taint and prog.taint[1] == which and prog.taint[2] == 'before' and taints(prog.taint):
+    if prog.taint and prog.taint[1] == which and prog.taint[2] in ('before', 'loopafter') and taints(prog.taint):
         return False
     return True
 
@@ -313,7 +325,7 @@ def non_pristine(prog, which):
     """Is the wrapper's star ``which`` tainted as far as a *static* reading of the source can tell?  Before the call in
     execution order -- or, for calls in nested scopes (whose execution order is not static), anywhere in the body."""
     t = prog.taint
-    return bool(t and t[1] == which and taints(t) and (t[2] == 'before' or prog.context in NESTED_CONTEXTS))
+    return bool(t and t[1] == which and taints(t) and (t[2] in ('before', 'loopafter') or prog.context in NESTED_CONTEXTS))
 
 
 def forwards_anything(prog):
